@@ -64,7 +64,9 @@ def strval(s):
 
 # ----------------------------------------------------------------------------- solver portfolio
 
-Z3_TIMEOUT_MS = int(os.environ.get("PYVC_Z3_TIMEOUT_MS", "20000"))
+TRACE = bool(os.environ.get("PYVC_TRACE"))
+Z3_TIMEOUT_MS = int(os.environ.get("PYVC_Z3_TIMEOUT_MS", "20000"))      # last-resort budget
+Z3_QUICK_MS = int(os.environ.get("PYVC_Z3_QUICK_MS", "1500"))           # first attempt, before cvc5 is asked
 CVC5_TIMEOUT_S = int(os.environ.get("PYVC_CVC5_TIMEOUT_S", "30"))
 CVC5 = "/usr/bin/cvc5"
 
@@ -122,7 +124,7 @@ class Path:
         self.prefix = prefix
         self.trace = []
         self.solver = z3.Solver()
-        self.solver.set("timeout", Z3_TIMEOUT_MS)
+        self.solver.set("timeout", Z3_QUICK_MS)
         seed = int(os.environ.get("VERIF_SEED", "0") or 0) % (2 ** 30)
         self.solver.set("random_seed", seed)
         self.pc = []
@@ -153,11 +155,19 @@ class Path:
         if extra is not None:
             self.solver.pop()
         STATS["z3_time"] += time.time() - t0
+        if TRACE and time.time() - t0 > 1.0:
+            print("[pyvc] slow branch query %.1fs -> %s (pc size %d)" % (time.time() - t0, r, len(self.pc)), flush=True)
         if r == z3.sat:
             return "sat"
         if r == z3.unsat:
             return "unsat"
         # second opinion
+        if os.environ.get("PYVC_DEBUG_UNKNOWN"):
+            sys_s = z3.Solver()
+            for a in self.pc + ([extra] if extra is not None else []):
+                sys_s.add(a)
+            with open("/tmp/unknown_%d.smt2" % STATS["unknown"], "w") as f:
+                f.write(sys_s.to_smt2())
         ans = _cvc5_check(self.pc + ([extra] if extra is not None else []))
         if ans == "unknown":
             STATS["unknown"] += 1
@@ -325,12 +335,74 @@ def assume(cond):
         raise PathEnd()
 
 
+def _consts_of(e, cache):
+    """uninterpreted constants (arity 0) occurring in e"""
+    k = e.get_id()
+    r = cache.get(k)
+    if r is not None:
+        return r
+    out = set()
+    stack = [e]
+    seen = set()
+    while stack:
+        x = stack.pop()
+        i = x.get_id()
+        if i in seen:
+            continue
+        seen.add(i)
+        if z3.is_app(x):
+            if x.num_args() == 0 and x.decl().kind() == z3.Z3_OP_UNINTERPRETED:
+                out.add(x.decl().name())
+            for c in x.children():
+                stack.append(c)
+        elif z3.is_quantifier(x):
+            stack.append(x.body())
+    cache[k] = out
+    return out
+
+
+_CONST_CACHE = {}
+
+
+def relevant_slice(pc, goal):
+    """conjuncts of pc connected to the goal through shared constants (dropping assumptions is sound for validity)"""
+    want = set(_consts_of(goal, _CONST_CACHE))
+    sets = [(_consts_of(c, _CONST_CACHE), c) for c in pc]
+    chosen = [False] * len(sets)
+    changed = True
+    while changed:
+        changed = False
+        for i, (cs, c) in enumerate(sets):
+            if not chosen[i] and (cs & want):
+                chosen[i] = True
+                want |= cs
+                changed = True
+    return [c for i, (cs, c) in enumerate(sets) if chosen[i]]
+
+
 def prove(cond, label, detail=None):
     """Obligation: cond is valid under the current path condition."""
     p = cur()
     ob = p.ex.obligation(label)
     ob.paths += 1
     t0 = time.time()
+    # an obligation at the same program point under the same decision prefix has the same path condition:
+    # re-executions of a prefix reuse the verdict instead of asking the solvers again
+    key = (label, tuple(p.trace), p.counter.get("$prove:" + label, 0))
+    p.counter["$prove:" + label] = key[2] + 1
+    hit = p.ex.prove_cache.get(key)
+    if hit is not None:
+        if hit == "unsat":
+            return True
+        if hit == "sat":
+            p.failed.append(label)
+        return False
+    res = _prove_uncached(p, ob, cond, label, detail, t0)
+    p.ex.prove_cache[key] = res
+    return res == "unsat"
+
+
+def _prove_uncached(p, ob, cond, label, detail, t0):
     if isinstance(cond, bool):
         res = "unsat" if cond else "sat"
         neg = None
@@ -356,13 +428,43 @@ def prove(cond, label, detail=None):
             res = "sat"
             ob.backend.add("z3-%s" % z3.get_version_string())
         else:
-            res = _cvc5_check(p.pc + [neg])
-            ob.backend.add("cvc5-cli")
+            # z3 said unknown: retry on the cone of influence of the goal (sound: fewer assumptions), then cvc5
+            sl = relevant_slice(p.pc, neg)
+            res = None
+            if len(sl) < len(p.pc):
+                s2 = z3.Solver()
+                s2.set("timeout", Z3_QUICK_MS)
+                for a in sl:
+                    s2.add(a)
+                s2.add(neg)
+                STATS["z3_queries"] += 1
+                if s2.check() == z3.unsat:
+                    res = "unsat"
+                    ob.backend.add("z3-%s(sliced)" % z3.get_version_string())
+            if res is None:
+                res = _cvc5_check(sl + [neg])
+                if res == "sat" and len(sl) < len(p.pc):
+                    res = "unknown"   # a model of the slice need not satisfy the full path condition
+                    r2 = _cvc5_check(p.pc + [neg])
+                    res = r2
+                ob.backend.add("cvc5-cli")
+                if res == "unknown":
+                    s3 = z3.Solver()
+                    s3.set("timeout", Z3_TIMEOUT_MS)
+                    for a in sl:
+                        s3.add(a)
+                    s3.add(neg)
+                    STATS["z3_queries"] += 1
+                    if s3.check() == z3.unsat:
+                        res = "unsat"
+                        ob.backend.add("z3-%s(sliced,long)" % z3.get_version_string())
     ob.time += time.time() - t0
+    if TRACE and time.time() - t0 > 1.0:
+        print("[pyvc] slow obligation %s %.1fs -> %s %s" % (label, time.time() - t0, res, sorted(ob.backend)), flush=True)
     if res == "unsat":
         if ob.status is None:
             ob.status = "discharged"
-        return True
+        return "unsat"
     if res == "sat":
         p.failed.append(label)
         if ob.status != "refuted":
@@ -373,11 +475,11 @@ def prove(cond, label, detail=None):
                 "detail": detail() if callable(detail) else detail,
                 "notes": list(p.notes),
             }
-        return False
+        return "sat"
     if ob.status in (None, "discharged"):
         ob.status = "undecided"
         ob.note = "solver returned unknown"
-    return False
+    return "unknown"
 
 
 class Exploration:
@@ -390,6 +492,7 @@ class Exploration:
         self.unknown_branches = 0
         self.unsupported = []
         self.max_paths = max_paths
+        self.prove_cache = {}
         self.path_models = []  # sampled (trace, model, notes) for CPython cross-check
         self.sample_models = False
         self.sample_limit = 64
